@@ -32,12 +32,13 @@ Unknown   == {11, 99}
 TextTypes == {6, 13, 14}
 ListTypes == {1, 4, 9, 10}
 CodeTypes == {2, 3, 7}
-Classes   == {"empty", "exact", "long", "odd", "short", "big", "badutf8"}
+\* "utf8": (text-bodied types) valid UTF-8 text with multi-byte characters (byte length # character count)
+Classes   == {"empty", "exact", "long", "odd", "short", "big", "badutf8", "utf8"}
 
 \* record.rs record_type(): the critical bit the serialiser writes
 CanonCrit(t) == t \in {0, 1, 2, 3, 4, 6, 7, 9, 10, 12}
 
-ValidSym(r) == r.cls = "badutf8" => r.t \in TextTypes
+ValidSym(r) == r.cls \in {"badutf8", "utf8"} => r.t \in TextTypes
 Syms == { r \in [t : Types, crit : BOOLEAN, cls : Classes] : ValidSym(r) }
 CanonSyms(C) == { r \in Syms : r.cls \in C /\ r.crit = CanonCrit(r.t) }
 
